@@ -48,14 +48,34 @@ type invalidMarshaler struct{}
 
 func (invalidMarshaler) MarshalJSON() ([]byte, error) { return []byte(`{"a":`), nil }
 
+// marshalers failing with an error that is, wraps, or is a typed nil *res.Error:
+// still "a value that cannot be marshalled" => system.internalError
+type resErrMarshaler struct{}
+
+func (resErrMarshaler) MarshalJSON() ([]byte, error) { return nil, res.ErrNotFound }
+
+type wrappedResErrMarshaler struct{}
+
+func (wrappedResErrMarshaler) MarshalJSON() ([]byte, error) {
+	return nil, fmt.Errorf("wrapped: %w", &res.Error{Code: "inventory.outOfStock", Message: "Out of stock"})
+}
+
+type nilResErrMarshaler struct{}
+
+func (nilResErrMarshaler) MarshalJSON() ([]byte, error) {
+	var e *res.Error
+	return nil, e
+}
+
 type panicMarshaler struct{}
 
 func (panicMarshaler) MarshalJSON() ([]byte, error) { panic("marshal panics") }
 
-var unmarshalableKinds = map[string]bool{"chan": true, "func": true, "nan": true, "badmarshaler": true, "invalidmarshaler": true, "nestedchan": true}
+var unmarshalableKinds = map[string]bool{"chan": true, "func": true, "nan": true, "badmarshaler": true, "invalidmarshaler": true, "nestedchan": true,
+	"marshaler-reserr": true, "marshaler-wrapped-reserr": true, "marshaler-nil-reserr": true}
 
 var marshalableKinds = []string{"nil", "int", "str", "stresc", "map", "nested", "datavalue", "ref", "softref", "list", "emptymap", "bool"}
-var unmarshalableList = []string{"chan", "func", "nan", "badmarshaler", "invalidmarshaler", "nestedchan"}
+var unmarshalableList = []string{"chan", "func", "nan", "badmarshaler", "invalidmarshaler", "nestedchan", "marshaler-reserr", "marshaler-wrapped-reserr", "marshaler-nil-reserr"}
 
 func scriptValue(kind string) interface{} {
 	switch kind {
@@ -95,6 +115,12 @@ func scriptValue(kind string) interface{} {
 		return invalidMarshaler{}
 	case "nestedchan":
 		return map[string]interface{}{"ok": 1, "bad": []interface{}{make(chan int)}}
+	case "marshaler-reserr":
+		return resErrMarshaler{}
+	case "marshaler-wrapped-reserr":
+		return map[string]interface{}{"x": wrappedResErrMarshaler{}}
+	case "marshaler-nil-reserr":
+		return nilResErrMarshaler{}
 	}
 	return kind
 }
@@ -133,6 +159,8 @@ func scriptError(kind string) error {
 		return &res.Error{Code: "custom.bad", Message: "bad data", Data: make(chan int)}
 	case "reserr-empty":
 		return &res.Error{}
+	case "wrapped-reserr":
+		return fmt.Errorf("wrapped: %w", errRes)
 	}
 	return errors.New(kind)
 }
@@ -400,16 +428,16 @@ func replyAlphabet(rtype string, htype res.ResourceType) []act {
 		common()
 	case "get":
 		if htype != res.TypeCollection {
-			add("model", "map", "nested", "chan", "badmarshaler")
+			add("model", "map", "nested", "chan", "badmarshaler", "marshaler-reserr", "marshaler-wrapped-reserr")
 			add("querymodel", "map")
 		}
 		if htype != res.TypeModel {
-			add("collection", "list", "nan")
+			add("collection", "list", "nan", "marshaler-nil-reserr", "marshaler-reserr")
 			add("querycollection", "list")
 		}
 		common()
 	case "call", "auth":
-		add("ok", "nil", "map", "stresc", "chan", "invalidmarshaler", "nestedchan", "datavalue")
+		add("ok", "nil", "map", "stresc", "chan", "invalidmarshaler", "nestedchan", "datavalue", "marshaler-reserr", "marshaler-wrapped-reserr", "marshaler-nil-reserr")
 		add("resource", "valid", "invalid", "query")
 		add("methodnotfound")
 		add("invalidparams", "", "bad params")
